@@ -287,12 +287,14 @@ func checkC03(c *Ctx) {
 	// ---- C03.syn
 	pe := newPE(u, info, nil)
 	if fd, _ := u.funcDecl("pkg/syntax/zh", "parsePunctuations"); fd != nil {
-		pe2 := newPE(u, info, fd)
-		o := findLocal(info, fd, "punctuationTypeMap")
+		// the mark -> token table is the map literal of the function (whatever the variable is called)
 		var lit *ast.CompositeLit
-		if o != nil {
-			lit = pe2.findListLiteral(o)
-		}
+		ast.Inspect(fd, func(n ast.Node) bool {
+			if cl, ok := n.(*ast.CompositeLit); ok && lit == nil && isMapType(info.TypeOf(cl)) && len(cl.Elts) >= 4 {
+				lit = cl
+			}
+			return true
+		})
 		byName := map[string]int64{}
 		keys := map[int64]bool{}
 		if lit != nil {
@@ -573,16 +575,47 @@ func checkC03(c *Ctx) {
 		R.check(ok && n >= 1, "C03.sections", "pkg/syntax/zh."+name+":forward-only", u.pos(f.Pos()), "the section state only moves to a later section", "the section state can move backwards (sections could be interleaved)")
 	}
 	if fd, _ := u.funcDecl("pkg/syntax/zh", "ParseExecBlock"); fd != nil {
-		pe4 := newPE(u, info, fd)
-		o := findLocal(info, fd, "validEndStates")
+		// roles, not names: the section variable is the local assigned only local constants; the admissible end
+		// states are the int-list literal of the function; it must hold every section constant except the initial one
 		consts := localIntConsts(info, fd)
 		ok := false
-		if o != nil {
-			if list, isL := pe4.constList(identExpr(info, fd, o)); isL {
-				ok = len(list) == 2
-				for _, v := range list {
-					if v != consts["stateStmtBlock"] && v != consts["stateCatchBlock"] {
-						ok = false
+		sv := stateLikeVars(info, fd)
+		var lists [][]int64
+		ast.Inspect(fd.Body, func(n ast.Node) bool {
+			if cl, isCL := n.(*ast.CompositeLit); isCL {
+				if _, isSlice := info.TypeOf(cl).Underlying().(*types.Slice); isSlice {
+					var got []int64
+					for _, el := range cl.Elts {
+						if v, isInt := constInt(info, el); isInt {
+							got = append(got, v)
+						}
+					}
+					if len(got) == len(cl.Elts) && len(got) > 0 {
+						lists = append(lists, got)
+					}
+				}
+			}
+			return true
+		})
+		if len(sv) == 1 && len(lists) == 1 {
+			defs := definitionsOf(info, fd, sv[0])
+			if len(defs) > 0 {
+				if initVal, isInt := constInt(info, defs[0]); isInt {
+					want := map[int64]bool{}
+					for _, v := range consts {
+						if v != initVal {
+							want[v] = true
+						}
+					}
+					got := map[int64]bool{}
+					for _, v := range lists[0] {
+						got[v] = true
+					}
+					ok = len(got) == len(want) && len(want) >= 1
+					for v := range want {
+						if !got[v] {
+							ok = false
+						}
 					}
 				}
 			}
